@@ -149,12 +149,37 @@ def _body(ctx):
     run.check(len(kv) == 1, 'R23', where(repo, lp), pt.qualname, 'key = target_key(row, row_number)',
               'the target key is not rendered from the row and its number')
     # full-outer emission after the loop
-    post = stmts_after(lp)
-    okp = len(post) == 1 and (
-        match_stmt("if mode == 'full-outer':\n    for (_k, _used) in %s.items():\n        if _used is False:\n"
-                   "            _e = __LOOKUP(_k)\n            yield _e" % usage, post[0]) is not None or
-        match_stmt("if mode == 'full-outer':\n    for (_k, _used) in %s.items():\n        if _used is False:\n"
-                   "            yield __LOOKUP(_k)" % usage, post[0]) is not None)
+    # ... decided on the paths through the generator: where the mode is full-outer, exactly one further loop follows the row loop,
+    # over the usage flags, yielding the lookup of each key whose flag is still False; in the other modes nothing follows
+    from sa.model import norm_compare as _nc
+    okp, seen_fo = True, set()
+    for p_ in Enumerator(where=pt.qualname).paths(pt.node.body):
+        gs_ = [_nc(t_, pol_) for t_, pol_ in p_.guards()]
+        if any(pseudo(t_) == 'deduplication' and pol_ for t_, pol_ in gs_):
+            continue
+        pos_ = [i_ for i_, it_ in enumerate(p_.items) if it_.kind == 'loop' and it_.node is lp]
+        if len(pos_) != 1 or any(it_.kind == 'loop_exit' for it_ in p_.items):
+            okp = False
+            continue
+        after_ = p_.items[pos_[0] + 1:]
+        later_ = [it_.node for it_ in after_ if it_.kind == 'loop']
+        stray_ = any(isinstance(y_, (ast.Yield, ast.YieldFrom)) for it_ in after_ if it_.kind != 'loop' and isinstance(it_.node, ast.AST)
+                     for y_ in ast.walk(it_.node))
+        fo_ = [pol_ for t_, pol_ in gs_ if match_expr("mode == 'full-outer'", t_) is not None]
+        if fo_ and all(fo_):
+            seen_fo.add(True)
+            bb_ = None
+            if len(later_) == 1:
+                bb_ = match_stmt("for (_k, _used) in %s.items():\n    if _used is False:\n        _e = __LOOKUP(_k)\n        yield _e" % usage, later_[0]) \
+                    or match_stmt("for (_k, _used) in %s.items():\n    if _used is False:\n        yield __LOOKUP(_k)" % usage, later_[0])
+            okp = okp and bb_ is not None and not stray_ and \
+                any(isinstance(t_, FuncInfo) and t_ is ce0 for t_ in res._resolve_callee(bb_['__LOOKUP'], pt.module, pt0))
+        elif fo_ and not any(fo_):
+            seen_fo.add(False)
+            okp = okp and not later_ and not stray_
+        else:
+            okp = okp and not later_ and not stray_
+    okp = okp and True in seen_fo
     run.check(okp, 'R23', pt.where, pt.qualname, "after the loop, full-outer only: for key, used in usage.items(): if used is False: yield lookup(key)",
               'full-outer does not emit exactly the unmatched source keys after the target rows')
 
@@ -212,7 +237,7 @@ def _body(ctx):
     paths = Enumerator(where=pt.qualname).paths(pt.node.body)
     okd = False
     for p in paths:
-        if any(pol and pseudo(t) == 'deduplication' for t, pol in p.guards()):
+        if any(pol and pseudo(t) == 'deduplication' for t, pol in [_nc(t_, pol_) for t_, pol_ in p.guards()]):
             nodes = list(path_nodes(p, into_loops=True))
             drains = [c for c in nodes if isinstance(c, ast.Call) and is_drain_call(res, c)]
             floops = [it.node for it in p.items if it.kind == 'loop']
